@@ -185,5 +185,44 @@ func c12Facts(e *env) (string, error) {
 	}
 	e.facts = append(e.facts, fact{Module: "BlockId", Kind: "callorder", Name: "PartSet.AddPart guards", Value: guards, Pos: e.pos(ap)})
 	fmt.Fprintf(&sb, "/-- `PartSet.AddPart` (%s): the guards (condition, return statement) in order -/\ndef addPartGuards : List (String × String) :=\n  [%s]\n\n", e.pos(ap), strings.Join(guards, ",\n   "))
+	// fix 1b2bd5e: the two entry points that take a part-set header from a peer compare Total with 0 and with
+	// maxBlockParts() before anything is sized by it (NewPartSetFromHeader / PeerState.SetHasProposal)
+	var rows []string
+	for _, g := range []struct {
+		name, file, recv, fn, op string
+		want                     []string
+	}{
+		{"defaultSetProposal", "consensus/state.go", "ConsensusState", "defaultSetProposal", "types.NewPartSetFromHeader(proposal.BlockPartsHeader)",
+			[]string{"proposal.BlockPartsHeader.Total <= 0", "proposal.BlockPartsHeader.Total > cs.maxBlockParts()"}},
+		{"ConsensusReactor.Receive", "consensus/reactor.go", "ConsensusReactor", "Receive", "ps.SetHasProposal(msg.Proposal)",
+			[]string{"msg.Proposal.BlockPartsHeader.Total <= 0", "msg.Proposal.BlockPartsHeader.Total > maxParts"}},
+	} {
+		fd, err := e.funcDecl(g.file, g.recv, g.fn)
+		if err != nil {
+			return "", err
+		}
+		found, have := guardedBy(e, fd, g.op, g.want)
+		var hs []string
+		for _, h := range have {
+			hs = append(hs, strconv.Quote(h))
+		}
+		rows = append(rows, fmt.Sprintf("(%q, %v, [%s])", g.name, found, strings.Join(hs, ", ")))
+		e.facts = append(e.facts, fact{Module: "BlockId", Kind: "guard", Name: "partsTotal:" + g.name, Value: map[string]interface{}{"found": found, "have": have}, Pos: g.file + ":" + g.fn})
+	}
+	// the bound itself: the return expressions of maxBlockParts
+	mb, err := e.funcDecl("consensus/state.go", "ConsensusState", "maxBlockParts")
+	if err != nil {
+		return "", err
+	}
+	var rets []string
+	ast.Inspect(mb.Body, func(n ast.Node) bool {
+		if r, ok := n.(*ast.ReturnStmt); ok {
+			rets = append(rets, strconv.Quote(c12Src(e, r)))
+		}
+		return true
+	})
+	e.facts = append(e.facts, fact{Module: "BlockId", Kind: "source", Name: "maxBlockParts returns", Value: rets, Pos: e.pos(mb)})
+	fmt.Fprintf(&sb, "/-- (entry point, the sized operation was found, the guard conditions on `BlockPartsHeader.Total` that precede it) -/\ndef partsTotalGuards : List (String × Bool × List String) :=\n  [%s]\n\n", strings.Join(rows, ",\n   "))
+	fmt.Fprintf(&sb, "/-- the return statements of `ConsensusState.maxBlockParts` (%s) -/\ndef maxBlockPartsReturns : List String :=\n  [%s]\n\n", e.pos(mb), strings.Join(rets, ", "))
 	return sb.String(), nil
 }
